@@ -11,7 +11,17 @@
   Scheduling: every greenlet that enters `_Get` runs without yielding until it blocks in
   `Open().wait()` on a pending open result or leaves `_Get`; a released waiter runs to its end
   without yielding again.  Hence one operation of the history = its immediate effect plus the
-  release of the waiters it wakes, in FIFO order (gevent's link order).  Import-free.
+  release of the waiters it wakes, in FIFO order (gevent's link order).
+
+  An underlying `Close()` need not be atomic for the pool: a multiplexing transport
+  (scales/mux/sink.py `_Shutdown`) marks itself Closed, fails its pending open and then fails
+  its in-flight requests by calling the callers back — a caller may re-submit through the same
+  pool *from inside* that `Close()` (`pcloseR`, `cresumeR`) — and it may yield before it returns,
+  so that requests of other greenlets reach the pool while the `Close()` is suspended (`pcloseY`
+  … any operations … `cresume`).  `SingletonPoolSink.Close` takes the sink out of its slot
+  *before* it calls the sink's `Close()` and does nothing after that call has returned;
+  therefore a request arriving during the underlying `Close()` finds an empty slot, and the end
+  of the underlying `Close()` changes nothing in the pool.  Import-free.
 -/
 import ScalesModel.Core.Val
 namespace Scales.Shared
@@ -140,23 +150,56 @@ inductive SOp where
   | ok (k : Nat)        -- the pending open of sink k succeeds
   | fail (k : Nat)      -- the pending open of sink k fails
   | fault (k : Nat)     -- sink k fails (at any time)
+  | pcloseY             -- pool.Close() whose underlying Close() yields after it has marked the
+                        -- sink Closed and failed its pending open; suspended until `cresume`
+  | pcloseR (r : Nat)   -- pool.Close() during whose underlying Close() a caller submits request r
+                        -- through the pool, synchronously (re-entrant request)
+  | cresume (k : Nat)   -- the suspended Close() of sink k resumes and returns
+  | cresumeR (k r : Nat) -- … and, before it returns, a caller submits request r re-entrantly
   deriving Repr, DecidableEq, Inhabited
+
+/-- `pool.Close()` with an underlying `Close()` that does not call back into the pool: the count
+    goes down; at ≤ 0 the sink is taken out of the slot and closed, which fails its pending open
+    and so releases the greenlets waiting for it — they re-read the (now empty) slot. -/
+def Pool.close (p : Pool) : Pool × List Fwd :=
+  let p' := { p with rc := p.rc - 1 }
+  match p'.next with
+  | some k =>
+    if p'.rc ≤ 0 then
+      let wasPending := isPending p' k
+      let p'' := { p' with next := none, sinks := upd p'.sinks k USink.callClose }
+      if wasPending then p''.release k else (p'', [])
+    else (p', [])
+  | none => (p', [])
+
+/-- `pool.Close()` during whose underlying `Close()` request `r` enters the pool re-entrantly.
+    The slot is already empty, so `_Get` creates a fresh sink, opens it and blocks (the closing
+    greenlet now waits for that open).  Only then does the loop run the greenlets that were
+    waiting for the closed sink's open: they re-read the slot and find the *fresh* sink, to which
+    their requests are handed.  (If the pool's `Close()` does not reach the sink's `Close()` — count
+    still positive, or nothing in the slot — there is no underlying `Close()` to call back from;
+    the request is then an ordinary one after the count went down.) -/
+def Pool.closeR (p : Pool) (r : Nat) : Pool × List Fwd :=
+  let p' := { p with rc := p.rc - 1 }
+  match p'.next with
+  | some k =>
+    if p'.rc ≤ 0 then
+      (({ p' with next := none, sinks := upd p'.sinks k USink.callClose } : Pool).create (.req r)).release k
+    else p'.get (.req r)
+  | none => p'.get (.req r)
 
 def Pool.step (p : Pool) : SOp → Pool × List Fwd
   | .req r => p.get (.req r)
   | .popen =>
     let p' := { p with rc := p.rc + 1 }
     if p'.rc > 1 then (p', []) else p'.get .tryget
-  | .pclose =>
-    let p' := { p with rc := p.rc - 1 }
-    match p'.next with
-    | some k =>
-      if p'.rc ≤ 0 then
-        let wasPending := isPending p' k
-        let p'' := { p' with next := none, sinks := upd p'.sinks k USink.callClose }
-        if wasPending then p''.release k else (p'', [])
-      else (p', [])
-    | none => (p', [])
+  | .pclose => p.close
+  -- up to the yield the underlying Close() has done all it does to the pool's view of the sink
+  | .pcloseY => p.close
+  | .pcloseR r => p.closeR r
+  -- `SingletonPoolSink.Close` does nothing after the underlying Close() has returned
+  | .cresume _ => (p, [])
+  | .cresumeR _ r => p.get (.req r)
   | .ok k =>
     if isPending p k then { p with sinks := upd p.sinks k USink.openOk }.release k else (p, [])
   | .fail k =>
